@@ -1,4 +1,5 @@
 import GodiProofs.Graph.CyclePath
+import GodiProofs.Graph.CyclePathComplete
 /-!
 # C05 (graph component) — "is there a directed cycle" is answered correctly for every graph
 
@@ -22,6 +23,44 @@ theorem cycle_report_real (g : Graph) (s k : Key) (path : Option (List Key)) (g'
     (h : detectCyclesFrom g s = (g', .cycle k path)) :
     Reach g.edges k k ∧ ∀ p, path = some p → isClosedWalk g.edges p = true ∧ p.head? = some k :=
   detectCyclesFrom_sound g s k path g' h
+
+/-- … and the report always carries that path: `findCyclePath`, with the fuel the model runs on, finds a closed walk
+through every node that lies on a cycle (`Graph/CyclePathComplete.lean`) — `CircularDependencyError.Path` is never
+empty -/
+theorem cycle_report_carries_a_path (g : Graph) (b : Base g) (s k : Key) (path : Option (List Key)) (g' : Graph)
+    (h : detectCyclesFrom g s = (g', .cycle k path)) : ∃ p, path = some p :=
+  detectCyclesFrom_has_path g b s k path g' h
+
+/-- `findCyclePath` is exact: it returns a path iff the node is on a cycle -/
+theorem findCyclePath_exact (g : Graph) (b : Base g) (k : Key) (hk : k ∈ g.nodes) :
+    (∃ p, findCyclePath g k = some p) ↔ Reach g.edges k k := by
+  constructor
+  · rintro ⟨p, hp⟩
+    obtain ⟨h1, h2⟩ := findCyclePath_sound g k p hp
+    -- a closed walk k … k with at least one edge
+    unfold isClosedWalk at h1
+    simp only [Bool.and_eq_true, decide_eq_true_eq] at h1
+    obtain ⟨⟨hlen, hhl⟩, hw⟩ := h1
+    cases p with
+    | nil => simp at hlen
+    | cons a rest =>
+      simp only [List.head?_cons, Option.some.injEq] at h2
+      subst h2
+      cases hr : rest.reverse with
+      | nil =>
+        have : rest = [] := by simpa using hr
+        subst this; simp at hlen
+      | cons z zs =>
+        have e : rest = zs.reverse ++ [z] := by
+          have := congrArg List.reverse hr; simpa using this
+        subst e
+        have hz : z = a := by
+          have h3 : (a :: (zs.reverse ++ [z])).getLast? = some z := by
+            rw [← List.cons_append]; exact List.getLast?_concat ..
+          rw [h3] at hhl; simp at hhl; exact hhl.symm
+        subst hz
+        exact reach_of_isWalk g.edges zs.reverse z z (by simpa using hw)
+  · exact fun h => findCyclePath_complete g b k hk h
 
 /-- COMPLETENESS: a clean run from `s` certifies that nothing reachable from `s` lies on a cycle -/
 theorem clean_run_certifies (g : Graph) (s : Key) (hs : s ∈ g.nodes) (g' : Graph)
